@@ -403,7 +403,10 @@ func specialKeys(c *specialCtx) {
 
 func specialKbd(c *specialCtx) {
 	alphabet := []string{"\x1b[>1u", "\x1b[>5u", "\x1b[<u", "\x1b[<2u", "\x1b[=3u", "\x1b[=4;2u", "\x1b[=1;3u", "\x1b[?u", "\x1b[?1049h", "\x1b[?1049l"}
-	depth := 5
+	depth := 4
+	if c.n > 1 {
+		depth = 5
+	}
 	total := 1
 	for i := 0; i < depth; i++ {
 		total *= len(alphabet)
